@@ -183,4 +183,23 @@ def countTags (objs : List Obj) : Except Fault2 (List TagCount) := do
 /-- the stored copy of `o`: id, position / node ids / members always; tags only when `keepTags` -/
 def copyObj (keepTags : Bool) (o : Obj) : Obj := if keepTags then o else { o with tags := [] }
 
+/-! ## cancelled extraction -/
+
+/-- `extract` whose context is cancelled by the `n`-th rewind of the input (`n ≥ 1`; `i` = passes already
+made): the scanner created after that rewind yields nothing and `scanner.Err()` is `ctx.Err()`, so `extract`
+returns `nil, err` — modelled as `.ok none`; `.ok (some s)` is a normal return with `*Data = s`. -/
+def loopGC (e : Env) (doc : Doc) (n : Nat) : Nat → Nat → List (List Obj × List Nat) → State → Except Fault (Option State)
+  | 0, _, _, _ => .error .fuel
+  | f+1, i, ps, s =>
+    if i + 1 = n then .ok none
+    else
+      let p := nextPass doc ps
+      let c := runPass e p.1 p.2 s
+      if c.st.flag then loopGC e doc n f (i + 1) ps.tail c.st else .ok (some c.st)
+
+def extractCancelRun (k : Keep) (W : Nat) (doc : Doc) (n : Nat) (sched : List (List Nat)) :
+    Except Fault (Option (List Obj)) :=
+  (loopGC ⟨true, k, W⟩ doc n (passFuel doc) 0 (sched.map fun ch => (doc, ch)) State.init).map
+    (Option.map (result doc))
+
 end GeomV.C18
